@@ -31,6 +31,12 @@ CHECKS["C14"] = dict(cat="proof", tech=TECH,
 CHECKS["C18"] = dict(cat="proof", tech=TECH,
    text="Contracts on the uniform tracer (reflection points, image-geometry length, directions, tof) for symbolic geometry and on the layered tracer's index walks, chain sums, Snell relation at boundaries, unit transmission and tracer dispatch; obligations from the current source discharged by z3 / Groebner bases.",
    note=PROOF_NOTE + " Reflection counts and layer counts are bounded (B); chain continuity inside LayeredRayTracer.solutions and the split-medium equivalence are N.", ref="§5 C18")
+CHECKS["C02"] = dict(cat="proof", tech=TECH,
+   text="Contracts stating that gradient-index paths and tracers read the geometry only through rho, phi and the two depths (dependence-set obligations with the horizontal coordinates withheld), rho/phi contracts with a ghost lemma for translations/rotations, reciprocity of the root problem and of the direct solution, and solution-count/exists clauses; discharged by z3 from the current source.",
+   note=PROOF_NOTE + " Root-search determinism (A6); attenuation reciprocity and the layered tracer are N.", ref="§5 C02")
+CHECKS["C03"] = dict(cat="proof", tech=TECH,
+   text="Contracts on Fresnel coefficients (magnitude <= 1, = 1 under total internal reflection), the attenuation factor exp(-|integral|) in (0,1] with integrand ds/L_att(z,|f|), and on the returned polarization vectors (unit, orthogonal, transverse) for all three path classes, with the vertical-emission defect carved out as a known finding; delay/linearity/energy of propagate() are listed as not covered.",
+   note=PROOF_NOTE + " Known finding D10 (vertical emitted direction) is listed in known_findings.json.", ref="§5 C03")
 NOT_YET = {}
 def main():
     props = [json.loads(l) for l in open(os.path.join(HERE, "properties.jsonl"))]
